@@ -322,6 +322,9 @@ def eval (env : Env) : Expr → Except Err Val
       | .str cs => match cs[n]? with
         | some c => .ok (.str [c])
         | none => .error .indexError
+      | .slist l => match l[n]? with
+        | some s => .ok (.str s)
+        | none => .error .indexError
       | _ => .error .typeError
   | .len e => do
       match (← eval env e) with
